@@ -11,6 +11,14 @@ Protocol (one answer per line):
   actions: `send i v c` `try i v c` `next c` `cancel i` `cancelnext` `sclose e` `rclose` (c, e ∈ {0,1});
   completions: `s<i>=nil|ctx|closed|err|true|false`, `n=v<value>|end|err|ctx`.
 * `ghost` → the ghost logs of the first compatible state (for diagnostics).
+* `outcomes <senders> <bufferSize> pre <action> ; … par <action> ; … post <action> ; …`
+  → `outcomes {<completions> | <completions> …} {…} …`: the **outcome set** of a real-threads scenario —
+  every result tuple some schedule of the LTS produces when the `pre` actions are issued in this order,
+  then the `par` actions concurrently (any order), with internal steps of the calls interleaved anywhere
+  (a call that was started need not have polled or parked when the next action comes); each `post` action
+  is issued at a quiescent point after that (every earlier call has returned or waits for good). One
+  outcome = the sorted completions of the pre/par phase, then, after `|`, those of each post action.
+  Same `step`, same `completions` as the conformance engine.
 
 State-set engine: apply the action to every state of the set, close under internal steps up to
 quiescence (no internal label enabled — this is what `synctest.Wait()` observes), keep the quiescent
@@ -27,14 +35,14 @@ def internalLabels (st : State) : List Label :=
   (List.range n).flatMap (fun i =>
     match st.senders[i]? with
     | none => []
-    | some sd => Label.handoff i :: (tableOf sd.pc).map (Label.sender i)) ++
-  (rtableOf st.rpc).map Label.recv
+    | some sd => Label.handoff i :: Label.park i :: (tableOf sd.pc).map (Label.sender i)) ++
+  Label.parkRecv :: (rtableOf st.rpc).map Label.recv
 
 def successors (st : State) : List (State × List String) :=
   (internalLabels st).filterMap fun l =>
     match step st l with
     | none => none
-    | some st' => some (st', completions st l)
+    | some st' => some (st', (completions st l).map showCompletion)
 
 def insertSorted (x : String) : List String → List String
   | [] => [x]
@@ -107,6 +115,98 @@ def step (s : St) (toks : List String) : St × String :=
       else ({ set := ok }, s!"ok {ok.length}")
   | _ => (s, "bad-op")
 
-def handler : Handler := { σ := St, init := {}, step := step }
+/-! ### Outcome sets (real-threads scenarios) -/
+
+structure OCfg where
+  st : State
+  pre : List Label
+  par : List Label
+  post : List Label
+  /-- completions of the phases so far, newest phase first; each phase sorted -/
+  done : List (List String)
+  deriving BEq
+
+def OCfg.addDone (c : OCfg) (xs : List String) : List (List String) :=
+  match c.done with
+  | [] => [sortStrs xs]
+  | d :: ds => sortStrs (d ++ xs) :: ds
+
+def removeFirst (l : Label) : List Label → List Label
+  | [] => []
+  | x :: xs => if x == l then xs else x :: removeFirst l xs
+
+/-- Successor configurations; `none` = terminal (an outcome). -/
+def OCfg.succs (c : OCfg) : Option (List OCfg) :=
+  let internal := (successors c.st).map fun (x : State × List String) => { c with st := x.1, done := c.addDone x.2 }
+  let env : List OCfg :=
+    match c.pre with
+    | l :: rest =>
+      (match Juniper.Model.Pipe.step c.st l with
+       | some st' => [{ c with st := st', pre := rest }]
+       | none => [])
+    | [] =>
+      if !c.par.isEmpty then
+        c.par.filterMap fun l =>
+          match Juniper.Model.Pipe.step c.st l with
+          | some st' => some { c with st := st', par := removeFirst l c.par }
+          | none => none
+      else if internal.isEmpty then
+        match c.post with
+        | l :: rest =>
+          (match Juniper.Model.Pipe.step c.st l with
+           | some st' => [{ c with st := st', post := rest, done := [] :: c.done }]
+           | none => [])
+        | [] => []
+      else []
+  if internal.isEmpty && c.pre.isEmpty && c.par.isEmpty && c.post.isEmpty then none
+  else some (internal ++ env)
+
+def showOutcome (done : List (List String)) : String :=
+  "{" ++ joinWith " | " (done.reverse.map (joinWith " ")) ++ "}"
+
+def explore (fuel : Nat) (frontier seen : List OCfg) (outs : List String) : List String :=
+  match fuel with
+  | 0 => outs ++ ["fuel-exhausted"]
+  | fuel + 1 =>
+    match frontier with
+    | [] => outs
+    | c :: rest =>
+      match c.succs with
+      | none =>
+        let o := showOutcome c.done
+        explore fuel rest seen (if outs.contains o then outs else outs ++ [o])
+      | some next =>
+        let fresh := next.foldl (fun (acc : List OCfg) x => if seen.contains x || acc.contains x then acc else acc ++ [x]) []
+        explore fuel (rest ++ fresh) (fresh ++ seen) outs
+
+/-- `a ; b ; c` → the three token groups -/
+def splitSemi (toks : List String) : List (List String) :=
+  (toks.foldr (fun t (acc : List (List String)) =>
+    if t == ";" then [] :: acc else
+    match acc with
+    | [] => [[t]]
+    | g :: gs => (t :: g) :: gs) [[]]).filter (!·.isEmpty)
+
+def outcomes (toks : List String) : String :=
+  match toks with
+  | n :: b :: "pre" :: rest =>
+    let preT := rest.takeWhile (· ≠ "par")
+    let rest2 := (rest.dropWhile (· ≠ "par")).drop 1
+    let parT := rest2.takeWhile (· ≠ "post")
+    let postT := (rest2.dropWhile (· ≠ "post")).drop 1
+    let parse := fun (ts : List String) => (splitSemi ts).map parseAction
+    let all := parse preT ++ parse parT ++ parse postT
+    if all.any Option.isNone then "bad-action" else
+    let get := fun (ts : List String) => (parse ts).filterMap id
+    let c0 : OCfg := { st := init (natOr n) (natOr b), pre := get preT, par := get parT, post := get postT, done := [[]] }
+    "outcomes " ++ joinWith " " (sortStrs (explore 200000 [c0] [c0] []))
+  | _ => "bad-op"
+
+def stepAll (s : St) (toks : List String) : St × String :=
+  match toks with
+  | "outcomes" :: rest => (s, outcomes rest)
+  | _ => step s toks
+
+def handler : Handler := { σ := St, init := {}, step := stepAll }
 
 end Juniper.Driver.C10
